@@ -28,3 +28,4 @@ def run(ctx):
     ctx.run_rule("H2", r_hazmat.rule_H2, cfgs)
     ctx.run_rule("F6m", r_hazmat.rule_mode_pairing, cfgs)
     ctx.run_rule("S5", r_hazmat.rule_S5, cfgs)
+    ctx.run_rule("H4", r_hazmat.rule_H4, cfgs)
